@@ -495,15 +495,11 @@ def quote(s, mark='"'):
     s: str = (
         s
         if isinstance(s, (str, *very_simple_types))
-        else (
-            s.s
-            if isinstance(s, Str)
-            else s.id if isinstance(s, Name) else getattr(s, "value", s)
-        )
+        else (s.id if isinstance(s, Name) else getattr(s, "value", getattr(s, "s", s)))
     )
     # ^ Poor man's `get_value`
     if (
-        isinstance(s, very_simple_types)
+        not isinstance(s, str)
         or len(s) == 0
         or len(s) > 1
         and s[0] == s[-1]
